@@ -6,6 +6,7 @@ import (
 	"time"
 
 	"github.com/karagenc/socket.io-go/internal/sync"
+	"github.com/karagenc/socket.io-go/internal/vhook"
 	"github.com/karagenc/socket.io-go/internal/utils"
 
 	mapset "github.com/deckarep/golang-set/v2"
@@ -233,6 +234,7 @@ func (s *serverSocket) onAck(header *parser.PacketHeader, decode parser.Decode) 
 	if ok {
 		delete(s.acks, *header.ID)
 	}
+	vhook.Event("ack.lookup", "s", s, "id", *header.ID, "found", ok, "h", ack)
 	s.acksMu.Unlock()
 
 	if !ok {
@@ -456,6 +458,7 @@ func (s *serverSocket) registerAckHandler(f any, timeout time.Duration) (id uint
 			panic(err)
 		}
 		s.acks[id] = h
+		vhook.Event("ack.reg", "s", s, "id", id, "h", h, "to", false)
 		s.acksMu.Unlock()
 		return
 	}
@@ -464,6 +467,7 @@ func (s *serverSocket) registerAckHandler(f any, timeout time.Duration) (id uint
 		s.debug.Log("Timeout occured for ack with ID", id, "timeout", timeout)
 		s.acksMu.Lock()
 		delete(s.acks, id)
+		vhook.Event("ack.purge", "s", s, "id", id)
 		s.acksMu.Unlock()
 	})
 	if err != nil {
@@ -472,6 +476,7 @@ func (s *serverSocket) registerAckHandler(f any, timeout time.Duration) (id uint
 
 	s.acksMu.Lock()
 	s.acks[id] = h
+	vhook.Event("ack.reg", "s", s, "id", id, "h", h, "to", true)
 	s.acksMu.Unlock()
 	return
 }
